@@ -536,6 +536,18 @@ func (fr *frame) symBinop(op token.Token, t types.Type, tRes types.Type, x, y va
 			if yt.isLit() && yt.bv == 0 {
 				return xt
 			}
+			if xt == yt {
+				return mkBV(s.w, 0)
+			}
+			// (a + b) - a = b ; (a + b) - b = a   (wrap-around arithmetic)
+			if xt.op == "bvadd" && len(xt.args) == 2 {
+				if xt.args[0] == yt {
+					return xt.args[1]
+				}
+				if xt.args[1] == yt {
+					return xt.args[0]
+				}
+			}
 			return mkOp("bvsub", s, xt, yt)
 		case token.MUL:
 			return mkOp("bvmul", s, xt, yt)
